@@ -59,6 +59,7 @@ func main() {
 	}
 	_ = replay
 	go watchdog(r, *out)
+	r.Enter("(any stream of " + prop + ")")
 	f(r)
 	os.Exit(r.Finish(*out))
 }
